@@ -173,7 +173,7 @@ class C12(System):
 
     def __init__(self, name, universe, writes, cap, depth_q, depth_t, configs='seeds', max_views=2, max_snaps=0,
                  T_writes=(350.0,), P_writes=(), accessors=True, copy_like=False, init_snap=False,
-                 tcap_q=None, tcap_t=None, state_cap=3_000_000, first_ops=None, quick_configs=None, init_scope=False):
+                 tcap_q=None, tcap_t=None, state_cap=3_000_000, first_ops=None, quick_configs=None, init_scope=False, probe=True):
         self.name = name
         self.U = tuple(universe)
         self.writes = tuple(writes)          # ((chemical index, value), ...)
@@ -192,6 +192,9 @@ class C12(System):
         self.quick_configs = quick_configs
         #: actions temp_new (scope = stream.temporary(T=...)) and temp_use (`with scope:`): a use must restore the state AT ENTRY
         self.init_scope = init_scope
+        #: probe=True: s[p] is fetched and proven live for every phase inside build and after every step.  probe=False: sub-streams are only
+        #: fetched by explicit actions (view, viewx = request by the OTHER-CASE label of a phase whose exact label is absent, probe)
+        self.probe = probe
 
     def warm(self):
         fx.tmo(); _thermo()
@@ -287,8 +290,8 @@ class C12(System):
         views = tuple(sorted((p, e, rowno(v._imol.data), v._thermal_condition is s._thermal_condition,
                               multi and s._streams.get(p) is v, fx.stream_digest(v, ids)[3:])
                              for p, (v, e) in st.views.items()))
-        snaps = tuple((d._phases if isinstance(d._phases, tuple) else tuple(d._phases), fx.sparse_digest(d._imol.data), d._T, d._P, m.key())
-                      for d, m in st.snaps)
+        snaps = tuple((d._phases if isinstance(d._phases, tuple) else tuple(d._phases), fx.sparse_digest(d._imol.data), d._T, d._P, m.key(),
+                       d._imol is s._imol, d._imol.data is s._imol.data) for d, m in st.snaps)
         scope = None
         if st.scope is not None:
             d = st.scope.data
@@ -305,6 +308,10 @@ class C12(System):
         acts.append(('reduce',)); acts.append(('as_stream',))
         if self.accessors:
             for a in ('vle', 'lle', 'sle'): acts.append(('touch', a))
+        if m.kind == 'M' and not self.probe:
+            acts.append(('probe',))
+            for p in m.phases:
+                if swap(p) not in m.phases and swap(p) in ALL: acts.append(('viewx', p))
         if m.kind == 'M':
             for p in m.phases:
                 held = st.views.get(p)
@@ -327,6 +334,7 @@ class C12(System):
         if len(st.snaps) < self.max_snaps + (1 if self.init_snap else 0): acts.append(('get_data',))
         for i in range(len(st.snaps)):
             acts.append(('set_data', i))
+            acts.append(('from_data', i))
             if self.copy_like: acts.append(('copy_like', i))
         if self.init_scope: acts.append(('temp_use',) if st.scope is not None else ('temp_new',))
         if self.first_ops is not None and st.last is None:
@@ -408,15 +416,22 @@ class C12(System):
                                  match=dict(op='read-mass-view', exc=type(e).__name__)))
         return out
 
-    def _probe_views(self, st):
+    def _probe_views(self, st, force=False):
         """Fetch s[p] for EVERY phase of a multi-phase stream and prove that what is handed out is a live view: it reads the
         parent's row, a write through the parent is read by the view, a write through the view is read by the parent (the
         second write restores the entry), same T and P.  Run inside build/step (fetching creates cached sub-streams), so also
         right after a multi -> single -> multi round trip, whatever was cached before the collapse."""
         s = st.s; m = st.m
-        if m.kind != 'M': return
+        if m.kind != 'M' or not (self.probe or force): return
         op = st.last[0] if st.last else 'init'
         ID = st.IDs[0]
+        try:
+            labels = [v.phase for v in s]
+        except Exception as e:
+            raise Violation('unexpected-exception', f'after {st.last!r}: iterating over the stream raised {type(e).__name__}: {e}', match=dict(op='iterate', exc=type(e).__name__))
+        if labels != list(m.phases):
+            raise Violation('view-phase', f'after {st.last!r}: iterating over the stream yields sub-streams labelled {labels}, its phases are {list(m.phases)}',
+                            match=dict(op=op, view='iterated'))
         for p in m.phases:
             try:
                 v = s[p]
@@ -545,6 +560,41 @@ class C12(System):
             st.nontriv = (not before.empty()) and (obs.kind != before.kind or obs.phases != before.phases)
             self._adopt(st, obs)
             return (op, acc, before.kind, ''.join(before.phases) + '>' + ''.join(obs.phases))
+
+        if op == 'probe':
+            self._probe_views(st, force=True)
+            st.nontriv = not before.empty()
+            return (op, len(before.phases))
+
+        if op == 'viewx':
+            # request the sub-stream by the OTHER-CASE label of phase p (exact label absent): on HEAD this resolves to p's row
+            p = a[1]; q = swap(p)
+            w = run(lambda: s[q], op)
+            got = [float(x) for x in np.asarray(w.mol.to_array(), float)]
+            if got != before.rows[p] or float(w.T) != before.T or float(w.P) != before.P:
+                raise Violation('view-stale', f's[{q!r}] (only {p!r} is defined) reads {got} at {w.T}, {w.P}; row {p!r} is {before.rows[p]} at {before.T}, {before.P}',
+                                match=dict(view='other-case', after=op))
+            obs = observe(s)
+            self._check_exact(st, before, obs, op)
+            st.nontriv = any(before.rows[p])
+            return (op, p)
+
+        if op == 'from_data':
+            # a NEW stream is created from a saved StreamData and becomes the stream under test; the saved object must stay what it was
+            # under every later operation (state oracle `snapshot-changed`) and can be restored from again (set_data / from_data)
+            d, snap = st.snaps[a[1]]
+            cls = tmo.MultiStream if snap.kind == 'M' else tmo.Stream
+            new = run(lambda: cls.from_data(d, thermo=_thermo()), op, dict(snap_kind=snap.kind))
+            obs = observe(new)
+            exp = snap.copy()
+            if len(exp.phases) == 1 and obs.kind in ('S', 'M'): exp.kind = obs.kind
+            self._check_exact(st, exp, obs, op, dict(snap_kind=snap.kind))
+            if observe(s).key() != before.key():
+                raise Violation('source-changed', f'from_data changed the stream the data was saved from / the current stream: {before.key()} -> {observe(s).key()}', match=dict(op=op))
+            st.s = new; st.views = {}; st.scope = None
+            st.m = exp
+            st.nontriv = True
+            return (op, snap.kind)
 
         if op == 'view':
             p = a[1]
@@ -733,11 +783,14 @@ SYSTEMS = [
     C12('c12.deep.lLg', ('l', 'L', 'g'), W1, 3.0, 3, 6, max_views=2, init_snap=True, tcap_t=60, init_scope=True),
     C12('c12.deep.sSl', ('s', 'S', 'l'), W1, 3.0, 3, 6, max_views=2, init_snap=True, tcap_t=120, init_scope=True),
     C12('c12.deep.gls', ('g', 'l', 's'), W1, 3.0, 3, 6, max_views=2, init_snap=True, tcap_t=60, init_scope=True),
+    # sub-streams requested by the other-case label BEFORE the exact label exists; nothing is fetched automatically here
+    C12('c12.xcase.lLg', ('l', 'L', 'g'), W0, 2.0, 3, 5, max_views=2, init_snap=True, T_writes=(), probe=False, tcap_t=60),
+    C12('c12.xcase.sSl', ('s', 'S', 'l'), W0, 2.0, 3, 5, max_views=2, init_snap=True, T_writes=(), probe=False, tcap_t=60),
     # restore / copy a saved state onto every other state: all ordered pairs (current, saved) of grid configurations
     C12('c12.restore4', ('g', 'l', 's', 'L'), W1, 8.0, 1, 2, configs='pairs', max_views=1, max_snaps=0, copy_like=True,
-        first_ops=('set_data', 'copy_like'), tcap_t=100),
+        first_ops=('set_data', 'copy_like', 'from_data'), tcap_t=100),
     C12('c12.restore5', ALL, W1, 8.0, 1, 1, configs='pairs', max_views=0, max_snaps=0, copy_like=True,
-        first_ops=('set_data', 'copy_like'), quick_configs=2000, tcap_t=100),
+        first_ops=('set_data', 'copy_like', 'from_data'), quick_configs=2000, tcap_t=100),
     # the whole universe, depth-bounded, two snapshots
     C12('c12.snap', ALL, W1, 8.0, 3, 5, max_views=1, max_snaps=2, copy_like=True, T_writes=(350.0,), tcap_t=150, init_scope=True),
 ]
